@@ -384,6 +384,17 @@ fn check_bounds<A: Alphabet>(alpha: &str, sb: &ScoringMatrix<A>, fails: &mut Fai
         } else {
             (min_got as f64) - tmin - tw <= s as f64
         };
+        // The library's f32 score and the two reported bounds are the same left-to-right f32 sum over rows
+        // (0 + row 0 + row 1 + ...) of cells that are ordered row by row; rounding to nearest is monotone, so
+        // the comparison holds bit for bit, with no allowance (seeded change C09-u: bounds accumulated in f64
+        // and rounded once are exceeded by the f32 score of the extreme window by an ulp).
+        if !s.is_nan() && s_low && (s as f64) <= (max_got as f64) + tmax + tw && !(min_got <= s && s <= max_got) {
+            push(
+                fails,
+                "library window score strictly outside [min_score, max_score]".into(),
+                format!("window {:?}: generic pipeline scores {:?} (bits {:#010x}), min_score() = {:?} ({:#010x}), max_score() = {:?} ({:#010x}): same f32 summation order, so no allowance applies", text, s, s.to_bits(), min_got, min_got.to_bits(), max_got, max_got.to_bits()),
+            );
+        }
         if s.is_nan() || !s_low || !((s as f64) <= (max_got as f64) + tmax + tw) {
             push(
                 fails,
